@@ -37,8 +37,10 @@ Clause(c, sc, r) ==
        ELSE IF gok /\ HalfPrepared(sc, got.dir)
             THEN (IF r = 2 THEN "SecondRunNeverAcceptsHalfPrepared" ELSE "AcceptsHalfPrepared")
        ELSE IF ~gok /\ pre.dir = {} /\ got.dir # {} THEN "FailedPatchLeavesNoDir"
-       ELSE IF exp.ok = gok /\ exp.fs = got THEN "ok"
-       ELSE "Outcome"
+       ELSE IF exp.ok # gok \/ exp.fs # got THEN "Outcome"
+       \* the exit status has to tell a failed command from a successful one
+       ELSE IF c.obs[r].rc0 # gok THEN "ExitStatus"
+       ELSE "ok"
 
 \* the stage at which the first run fails according to the specification ("done" if it does not)
 Stage1(sc) == RunOnce(sc, InitFS(sc)).stage
